@@ -150,7 +150,7 @@ pub fn check(cfg: &ChunkerCfg, data: &Arc<Vec<u8>>, reads: &ReadScript, rec: &mu
     Ok(())
 }
 
-fn case_strategy() -> impl Strategy<Value = Case> {
+pub fn case_strategy() -> impl Strategy<Value = Case> {
     (
         small_chunker_strategy(),
         prop_oneof![3 => source_strategy(6, 1500), 2 => zero_heavy_strategy(8, 300)],
@@ -179,7 +179,7 @@ fn large_case_strategy(max_seg: u32) -> impl Strategy<Value = Case> {
         .prop_map(|(cfg, source, reads)| Case { cfg, source, reads })
 }
 
-fn run_case(c: &Case, rec: &mut CaseRec) -> Result<(), String> {
+pub fn run_case(c: &Case, rec: &mut CaseRec) -> Result<(), String> {
     let data = Arc::new(expand(&c.source));
     check(&c.cfg, &data, &c.reads, rec)
 }
